@@ -338,6 +338,42 @@ fn run_two_clients(limit: u32, opcode: u8, b_split: u8) -> Result<Option<(String
     Ok(None)
 }
 
+/// A limit above the default: an item just under 1 MiB (and one of 2 MiB) grown by a small append /
+/// prepend stays far below the configured limit and must not be refused for size.
+fn run_concat_under_big_limit(limit: u32, stored: usize, opcode: u8) -> Result<Option<(String, String)>, String> {
+    let w = net::NetWorld::new(NetCfg { item_limit: limit, ..Default::default() })?;
+    let mut c = w.connect()?;
+    let value = vec![b'v'; stored];
+    c.step(&w, &Req::store(op::SET, b"grow", &value, 3, 0, 0).opaque(1).bytes())?;
+    let r0 = wire::split_responses(&c.got).0;
+    if r0.first().map(|r| r.status) != Some(st::OK) {
+        return Ok(Some((
+            "within-limit-refused|large-item".into(),
+            format!("limit={} set of a {}-byte value answered {:?}", limit, stored, r0.first().map(|r| r.short())),
+        )));
+    }
+    c.got.clear();
+    c.step(&w, &Req::concat(opcode, b"grow", &vec![b'+'; 200], 0).opaque(2).bytes())?;
+    let r1 = wire::split_responses(&c.got).0;
+    let quiet = wire::is_quiet(opcode);
+    let refused = r1.iter().any(|r| r.status == st::TOO_LARGE);
+    let ok = if quiet { r1.is_empty() } else { r1.len() == 1 && r1[0].status == st::OK };
+    if refused || !ok {
+        return Ok(Some((
+            "within-limit-refused|concat-on-large-item".into(),
+            format!(
+                "limit={} item of {} bytes, {} of 200 bytes (result {} bytes, within the limit) answered {:?}",
+                limit,
+                stored,
+                wire::op_name(opcode),
+                stored + 200,
+                r1.iter().map(|r| r.short()).collect::<Vec<_>>()
+            ),
+        )));
+    }
+    Ok(None)
+}
+
 pub fn check(tier: Tier, threads: usize) -> CheckOutcome {
     let t0 = Instant::now();
     let limits: Vec<u32> = if tier == Tier::Quick { vec![1024, 4096, 65536] } else { vec![1024, 4096, 65536, 1 << 20, 4 << 20] };
@@ -433,6 +469,29 @@ pub fn check(tier: Tier, threads: usize) -> CheckOutcome {
             Ok(None) => {}
         }
     }
+    // limits above the 1 MiB default: items near and above 1 MiB grown by append / prepend
+    let mut big: Vec<(u32, usize, u8)> = vec![];
+    for (limit, stored) in [(4u32 << 20, (1usize << 20) - 100), (4 << 20, 2 << 20), (2 << 20, (1 << 20) + 5000)] {
+        for opc in [op::APPEND, op::PREPEND, op::APPENDQ, op::PREPENDQ] {
+            big.push((limit, stored, opc));
+        }
+    }
+    let bres = par_map(&big, threads, |_, (l, s, o)| run_concat_under_big_limit(*l, *s, *o));
+    for ((l, sz, o), r) in big.iter().zip(bres.iter()) {
+        chunks += 2;
+        match r {
+            Err(e) => mach = Some(format!("large item op {:#x}: {}", o, e)),
+            Ok(Some((sig, what))) => {
+                failing += 1;
+                found.entry(sig.clone()).or_insert(Violation {
+                    signature: sig.clone(),
+                    what: what.clone(),
+                    replay: json!({"engine": "c13", "case": what, "large_item": true, "limit": l, "stored": sz, "opcode": o}),
+                });
+            }
+            Ok(None) => {}
+        }
+    }
     let wres = par_map(&within, threads, |_, (l, o, sp)| run_within_any(*l, *o, *sp));
     for ((l, o, sp), r) in within.iter().zip(wres.iter()) {
         chunks += 2;
@@ -478,6 +537,7 @@ pub fn check(tier: Tier, threads: usize) -> CheckOutcome {
             "distinct_nontrivial": cases.len() + within.len(),
             "within_limit_any_opcode_scenarios": within.len(),
             "two_clients_discarding_at_once_scenarios": two.len(),
+            "concat_on_large_item_under_big_limit_scenarios": big.len(),
             "scenarios_failing": failing,
             "limits": limits,
             "samples": samples,
@@ -495,6 +555,15 @@ pub fn check(tier: Tier, threads: usize) -> CheckOutcome {
 }
 
 pub fn replay(v: &serde_json::Value) -> Result<Option<String>, String> {
+    if v["large_item"].as_bool() == Some(true) {
+        let (l, sz, o) = (v["limit"].as_u64().unwrap_or(4 << 20) as u32, v["stored"].as_u64().unwrap_or(0) as usize, v["opcode"].as_u64().unwrap_or(0) as u8);
+        let a = run_concat_under_big_limit(l, sz, o)?;
+        let b = run_concat_under_big_limit(l, sz, o)?;
+        if a != b {
+            return Err("two replays of the same scenario differ".into());
+        }
+        return Ok(a.map(|(s, w)| format!("{}: {}", s, w)));
+    }
     if v["two_clients"].as_bool() == Some(true) {
         let (l, o, sp) = (v["limit"].as_u64().unwrap_or(1024) as u32, v["opcode"].as_u64().unwrap_or(0) as u8, v["split"].as_u64().unwrap_or(0) as u8);
         let a = run_two_clients(l, o, sp)?;
